@@ -241,9 +241,16 @@ Qed.
 (* ------------------------------------------------------------------ the observer unsubscribes inside a BATCH *)
 
 (* what may follow an unsubscribe inside a BATCH of the observer: things that tell the observer nothing about foreign nodes *)
-Definition tail_cmd (c : cmd) : bool :=
+Definition tail_flat (c : cmd) : bool :=
   match c with
   | CUnsubscribe _ | CSetData _ _ | CRemoveData _ _ | CSetMax _ | CResetMax => true
+  | _ => false
+  end.
+
+Fixpoint tail_cmd (c : cmd) : bool :=
+  match c with
+  | CUnsubscribe _ | CSetData _ _ | CRemoveData _ _ | CSetMax _ | CResetMax => true
+  | CBatch l => forallb tail_cmd l
   | _ => false
   end.
 
@@ -254,8 +261,8 @@ Proof.
   induction l as [|c l IH]; intros sv; cbn [fold_left]; [reflexivity|]. apply IH.
 Qed.
 
-(* one tail command of the observer *)
-Lemma tail_step : forall mir o c nest sv B ss, tail_cmd c = true -> small B -> inv B sv -> pend_ok sv ->
+(* one tail command of the observer (not a BATCH) *)
+Lemma tail_step0 : forall mir o c nest sv B ss, tail_flat c = true -> small B -> inv B sv -> pend_ok sv ->
   get_session sv o = Some ss ->
   let sv' := push_all (handle fx nest sv o c) in
   pend_ok sv' /\ inv B sv' /\ (forall q, V mir sv' o q = V mir sv o q)
@@ -320,6 +327,60 @@ Proof.
   exists ss2. split; [exact Hd|split; [congruence|]]. intros x Hx. apply Hc. now rewrite <- He.
 Qed.
 
+(* the facts of tail_step0, as a predicate, and what they survive *)
+Definition tail_facts (mir : mirror) (o : sid) (B : nat) (sv : server) (ss : session) (sv' : server) : Prop :=
+  pend_ok sv' /\ inv B sv' /\ (forall q, V mir sv' o q = V mir sv o q)
+  /\ (forall q, own_node ss q = false -> data_at (sv_tree sv') q = data_at (sv_tree sv) q)
+  /\ (exists ss', get_session sv' o = Some ss' /\ session_dir ss' = session_dir ss
+                  /\ forall x, In x (all_entries (s_subs ss')) -> In x (all_entries (s_subs ss))).
+
+Lemma tail_facts_refl : forall mir o B sv ss, pend_ok sv -> inv B sv -> get_session sv o = Some ss -> tail_facts mir o B sv ss sv.
+Proof. intros. split; [auto|split; [auto|split; [auto|split; [auto|]]]]. exists ss. auto. Qed.
+
+Lemma tail_facts_trans : forall mir o B sv ss sv1 ss1 sv2,
+  tail_facts mir o B sv ss sv1 -> get_session sv1 o = Some ss1 -> tail_facts mir o B sv1 ss1 sv2 -> tail_facts mir o B sv ss sv2.
+Proof.
+  intros mir o B sv ss sv1 ss1 sv2 [Hp1 [I1 [HV1 [Hd1 [x [Hx [Hdx Hsx]]]]]]] Hss1 [Hp2 [I2 [HV2 [Hd2 [y [Hy [Hdy Hsy]]]]]]].
+  assert (x = ss1) by congruence. subst x.
+  split; [auto|split; [auto|split; [intros q; now rewrite HV2|split]]].
+  - intros q Hq. rewrite Hd2; [now apply Hd1|]. now rewrite (own_node_dir ss1 ss q Hdx).
+  - exists y. split; [auto|split; [congruence|auto]].
+Qed.
+
+Lemma tail_facts_push : forall mir o B sv ss sv1, tail_facts mir o B sv ss sv1 ->
+  tail_facts mir o B sv ss (push_all sv1) /\ settled (push_all sv1).
+Proof.
+  intros mir o B sv ss sv1 [Hp1 [I1 [HV1 [Hd1 [x [Hx [Hdx Hsx]]]]]]].
+  split; [|now apply settled_push_all].
+  split; [now apply pend_ok_push_all|]. split; [eapply inv_same_core; [apply push_all_core|exact I1]|].
+  split; [intros q; now rewrite V_push_all|].
+  split; [intros q Hq; destruct (push_all_core sv1) as [Ht _]; rewrite Ht; now apply Hd1|].
+  destruct (get_session_sess_fwd sv1 (push_all sv1) o x (same_core_sess _ _ (push_all_core _)) Hx) as [y [Hy [Hsy Hdy]]].
+  exists y. split; [auto|split; [congruence|]]. intros z Hz. apply Hsx. now rewrite <- Hsy.
+Qed.
+
+(* one tail command of the observer, nested BATCHes of tail commands included *)
+Lemma tail_step : forall mir o c nest sv B ss, tail_cmd c = true -> small B -> inv B sv -> pend_ok sv ->
+  get_session sv o = Some ss ->
+  let sv' := push_all (handle fx nest sv o c) in
+  tail_facts mir o B sv ss sv' /\ settled sv'.
+Proof.
+  intros mir o. induction c using cmd_ind'; intros nest sv B ss Ht HB I Hpo Hss sv'; try discriminate;
+    try (match goal with sv'0 := push_all (handle fx nest sv o ?c0) |- _ =>
+           destruct (tail_step0 mir o c0 nest sv B ss eq_refl HB I Hpo Hss) as [H1 [H2 [H3 [H4 [H5 H6]]]]];
+           split; [split; [exact H1|split; [exact H2|split; [exact H3|split; [exact H4|exact H5]]]]|exact H6]
+         end).
+  (* BATCH *)
+  unfold sv'. apply tail_facts_push. cbn [handle]. rewrite Hss. cbn [tail_cmd] in Ht.
+  destruct (Nat.ltb nest max_batch_nest); [|now apply tail_facts_refl].
+  clear sv'. revert sv ss I Hpo Hss Ht.
+  induction H as [|c l Hc Hl IHl]; intros sv ss I Hpo Hss Ht; [now apply tail_facts_refl|].
+  cbn [forallb] in Ht. apply andb_true_iff in Ht as [Ht1 Ht2].
+  destruct (Hc (S nest) sv B ss Ht1 HB I Hpo Hss) as [Hf1 _].
+  pose proof Hf1 as [Hp1 [I1 [_ [_ [ss1 [Hss1 _]]]]]].
+  apply (tail_facts_trans mir o B sv ss (push_all (handle fx (S nest) sv o c)) ss1); auto.
+Qed.
+
 Lemma tail_fold : forall mir o l2 nest sv B ss, forallb tail_cmd l2 = true -> small B -> inv B sv -> pend_ok sv ->
   get_session sv o = Some ss ->
   let sv' := fold_left (fun s' c => push_all (handle fx nest s' o c)) l2 sv in
@@ -332,7 +393,7 @@ Proof.
   intros mir o. induction l2 as [|c l2 IH]; intros nest sv B ss Ht HB I Hpo Hss; cbn [fold_left].
   - split; [auto|split; [auto|split; [auto|split; [auto|split; [|auto]]]]]. exists ss. auto.
   - cbn [forallb] in Ht. apply andb_true_iff in Ht as [Ht1 Ht2].
-    destruct (tail_step mir o c nest sv B ss Ht1 HB I Hpo Hss) as [Hp1 [I1 [HV1 [Hd1 [[ss1 [Ha [Hb Hc]]] Hset1]]]]].
+    destruct (tail_step mir o c nest sv B ss Ht1 HB I Hpo Hss) as [[Hp1 [I1 [HV1 [Hd1 [ss1 [Ha [Hb Hc]]]]]]] Hset1].
     destruct (IH nest _ B ss1 Ht2 HB I1 Hp1 Ha) as [Hp2 [I2 [HV2 [Hd2 [[ss2 [Hd [He Hf]]] Hset2]]]]].
     split; [exact Hp2|split; [exact I2|split; [intros q; now rewrite HV2|split; [|split; [|auto]]]]].
     + intros q Hq. rewrite Hd2; [now apply Hd1|]. now rewrite (own_node_dir ss1 ss q Hb).
@@ -515,17 +576,15 @@ Proof.
   intros l1 l2. cbn [cmd_subs_ok]. induction l1 as [|c l1 IH]; cbn [app]; [auto|]. intros [H1 H2]. now apply IH.
 Qed.
 
-Lemma tail_budget : forall l, forallb tail_cmd l = true -> cmd_budget (CBatch l) = 0.
+Lemma tail_cmd_budget : forall c, tail_cmd c = true -> cmd_budget c = 0.
 Proof.
-  intros l. cbn [cmd_budget]. induction l as [|c l IH]; intros H; [reflexivity|]. cbn [forallb] in H.
-  apply andb_true_iff in H as [H1 H2]. rewrite (IH H2). destruct c; try discriminate; reflexivity.
+  induction c using cmd_ind'; intros Ht; try discriminate; try reflexivity.
+  cbn [tail_cmd cmd_budget] in *. induction H as [|c l Hc Hl IH]; [reflexivity|].
+  cbn [forallb] in Ht. apply andb_true_iff in Ht as [H1 H2]. now rewrite (Hc H1), (IH H2).
 Qed.
 
-Lemma tail_depth : forall l, forallb tail_cmd l = true -> cmd_depth (CBatch l) = 1.
-Proof.
-  intros l. cbn [cmd_depth]. intros H. f_equal. induction l as [|c l IH]; [reflexivity|]. cbn [forallb] in H.
-  apply andb_true_iff in H as [H1 H2]. rewrite (IH H2). destruct c; try discriminate; reflexivity.
-Qed.
+Lemma tail_budget : forall l, forallb tail_cmd l = true -> cmd_budget (CBatch l) = 0.
+Proof. intros l H. apply (tail_cmd_budget (CBatch l)). exact H. Qed.
 
 (* pruning with fewer subscriptions what was exact for more *)
 Lemma prune_math : forall (S0 S1 : matcher) q d0, wf_groups (m_groups S0) -> wf_groups (m_groups S1) ->
@@ -582,7 +641,7 @@ Proof.
     fold step in HV. fold sva in HV. rewrite HV. now apply (V_quiet m sv0 o ss0). }
   (* the subscriptions after the head, as the client computes them *)
   assert (Hsa : s_subs ssa = fst (client_cmd (s_subs ss0) (CBatch l0))).
-  { destruct (handle_track fx (CBatch l0) 0 sv0 o Hpo0) as [_ Htr]; [rewrite (tail_depth l0 Ht0); cbn [Nat.add]; lia|].
+  { destruct (handle_track fx (CBatch l0) 0 sv0 o Hpo0) as [_ Htr]; [cbn [Nat.add]; pose proof (batch_depth_app_l l0 (l1 ++ l2)); lia|].
     rewrite (handle_batch_fold l0 0 sv0 o ss0 Hss0 Hlt) in Htr. fold step in Htr. fold sva in Htr.
     destruct (Htr o ss0 Hss0) as [x [Hx [_ Hy]]]. rewrite N.eqb_refl in Hy. congruence. }
   assert (Hina : In ssa (sv_sessions sva)) by (apply find_session_some in Hssa; tauto).
